@@ -522,8 +522,49 @@ func (e *Engine) producers(v ssa.Value, seen map[ssa.Value]bool, depth int) []ss
 				stores := e.storesTo(cell)
 				if len(stores) > 0 {
 					for _, st := range stores {
+						// a store of the same function that cannot reach this load contributes nothing
+						if st.Parent() == x.Parent() && st.Block() != x.Block() && !blockReaches(st.Block(), x.Block(), false) {
+							continue
+						}
+						if st.Parent() == x.Parent() && st.Block() == x.Block() && !x.Block().Dominates(x.Block()) {
+							after := false
+							for _, in := range x.Block().Instrs {
+								if in == ssa.Instruction(x) {
+									break
+								}
+								if in == ssa.Instruction(st) {
+									after = true
+								}
+							}
+							if !after && !blockReaches(x.Block(), x.Block(), false) {
+								continue // stored later in the same straight-line block
+							}
+						}
 						out = append(out, e.producers(st.Val, seen, depth+1)...)
 					}
+					if len(out) > 0 {
+						return out
+					}
+				}
+			}
+		}
+	case *ssa.Extract:
+		// one of several results of an unexported function of the module: what that function returns there
+		if c, ok := x.Tuple.(*ssa.Call); ok {
+			if callee := c.Call.StaticCallee(); callee != nil && len(callee.Blocks) > 0 && inModule(callee) && callee.Parent() == nil && callee.Object() != nil && !callee.Object().Exported() {
+				n := 0
+				for _, b := range callee.Blocks {
+					if len(b.Instrs) == 0 || b == callee.Recover {
+						continue
+					}
+					ret, ok := b.Instrs[len(b.Instrs)-1].(*ssa.Return)
+					if !ok || x.Index >= len(ret.Results) {
+						continue
+					}
+					n++
+					out = append(out, e.producers(resolveRet(ret.Results[x.Index]), seen, depth+1)...)
+				}
+				if n > 0 {
 					return out
 				}
 			}
